@@ -710,7 +710,7 @@ func main() {
 	}
 	workers := *workersFlag
 	if workers == 0 {
-		workers = 6
+		workers = 8
 		if thorough {
 			workers = 16
 		}
